@@ -371,6 +371,9 @@ func checkMixin(prop, tier string, seed int64) int {
 		replay := c.SaveReplay(prop, "mixin", nil, map[string]string{"diag.txt": strings.Join(diags[c.Tid], "\n"), "record.json": string(r.Rec)})
 		rep.AddViolation(Violation{Prop: prop, Tid: c.Tid, Sig: sig, What: "[" + c.Note + "] " + what, Replay: replay})
 	}
+	if tier == "thorough" || os.Getenv("VERIF_SUITE") != "" {
+		suiteMixinComponent(rep, scratch, prop)
+	}
 	return rep.Finish()
 }
 
